@@ -11,6 +11,7 @@ import (
 
 	"github.com/bronlabs/bron-crypto/pkg/base"
 	"github.com/bronlabs/bron-crypto/pkg/base/algebra"
+	fieldsImpl "github.com/bronlabs/bron-crypto/pkg/base/algebra/impl/fields"
 	"github.com/bronlabs/bron-crypto/pkg/base/ct"
 	"github.com/bronlabs/bron-crypto/pkg/base/curves"
 	bls12381Impl "github.com/bronlabs/bron-crypto/pkg/base/curves/pairable/bls12381/impl"
@@ -90,6 +91,14 @@ func (*Gt) FromBytes(inBytes []byte) (*GtElement, error) {
 	var element GtElement
 	if ok := element.V.SetBytes(inBytes); ok == 0 {
 		return nil, curves.ErrFailed.WithMessage("failed to set bytes")
+	}
+
+	// The target group is the subgroup of order r of Fp12*: x is a member iff x^r = 1
+	// (this also excludes 0, which is not invertible).
+	var xr bls12381Impl.Fp12
+	fieldsImpl.Pow[*bls12381Impl.Fp12](&xr, &element.V.Fp12, bls12381Impl.FqModulus[:])
+	if xr.IsOne() != 1 {
+		return nil, curves.ErrSubGroupMembership.WithStackFrame()
 	}
 
 	return &element, nil
